@@ -1,8 +1,8 @@
 // @unit c05_struct property=C05 attach=typify-impl/src/structs.rs
-// @h c05_closed_object_false tier=off bounded=object-without-properties
-// @h c05_closed_object_true tier=off bounded=object-without-properties
-// @h c05_closed_object_absent tier=off bounded=object-without-properties
-// @canary canary_c05_struct
+// @h c05_closed_object_false tier=native bounded=object-without-properties
+// @h c05_closed_object_true tier=native bounded=object-without-properties
+// @h c05_closed_object_absent tier=native bounded=object-without-properties
+// @native-canary canary_c05_struct
 //
 // C05 -- "closed objects": `additionalProperties: false` is the ONLY thing that makes a
 // generated struct reject unknown members (`TypeSpace::struct_members`).
@@ -12,9 +12,10 @@
 //       discriminant is concrete, see DESIGN.md 7.5) and no properties, and no member is
 //       invented
 //
-// RESULT: only the `absent` case terminates (57 s); for `true` / `false` the comparison
-// `a.as_ref() == &Schema::Bool(..)` walks the derived PartialEq of Schema through a Box and
-// does not finish in 15 minutes. The unit is kept with tier=off and is NOT part of the C05 check.
+// Not proved: only the `absent` case terminates in CBMC (57 s); for `true` / `false` the
+// comparison `a.as_ref() == &Schema::Bool(..)` walks the derived PartialEq of Schema through a
+// Box and does not finish in 15 minutes. The three literal instances are executed natively
+// against the real code instead (`tier=native`, a bounded stand-in, never counted as proved).
 //
 // Objects WITH properties go through struct_property -> id_for_schema (the conversion
 // driver) and are not within reach.
